@@ -21,6 +21,10 @@ def build_cases(tier, seed):
             seen.add(text)
             k += 1
             cases.append(scripth.Case(stmts, specs=specs, tag='addr-%dx%d-%d' % (h, w, k), doms=doms, vm_steps=2500))
+            if k % 4 == 0:
+                # the same program as the second run of its Machine: the first run saved a default colour, staged cells and left raw units
+                cases.append(scripth.Case(stmts, specs=specs, tag='addr-%dx%d-%d-rerun' % (h, w, k), doms=doms, vm_steps=2500,
+                                          before='hue 10 saturation 20 brightness 30 kelvin 2000 set default set "M" begin stage row 0 end units raw hue 500 set "Z" zone 1 3'))
     return cases
 
 
